@@ -315,9 +315,7 @@ impl Monitor for C08m {
         }
         let pk = obs.ix.key("whirlpool");
         let Some(pool) = obs.pre.data(&pk).and_then(codec::Pool::decode) else { return };
-        if !plain_pool(&obs.pre, &pool) {
-            return;
-        }
+        let fee_pool = !plain_pool(&obs.pre, &pool);
         let posk = obs.ix.key("position");
         let (Some(pp), Some(np)) = (obs.pre.data(&posk).and_then(codec::Position::decode), w.bank.data(&posk).and_then(codec::Position::decode)) else { return };
         let (ua, ub) = (obs.ix.key("token_owner_account_a"), obs.ix.key("token_owner_account_b"));
@@ -333,6 +331,28 @@ impl Monitor for C08m {
             acc.violation(format!("c08:{sig}:{n}"), detail, json!({"instruction": ix_brief(&obs.ix)}));
         };
         let (ea_i, eb_i) = (ea.to_i128().unwrap_or(i128::MAX), eb.to_i128().unwrap_or(i128::MAX));
+        if fee_pool {
+            // transfer-fee mints: the VAULT still moves by exactly the amounts of the statement (the program asks the owner
+            // for the amount whose fee-reduced value is the cost, and pays out the release before the token program's fee);
+            // the owner pays at least / receives at most that; a token that is not involved does not move at all
+            acc.count("liquidity_ix_checked_on_fee_pools");
+            if ua != ub {
+                if dv != (ea_i, eb_i) {
+                    fail(acc, "amounts_on_transfer_fee_pool", format!("liquidity {l} ({}): vault moved {:?}, exact amounts ({ea}, {eb}); tick {} range [{}, {})", if dec { "withdraw" } else { "deposit" }, dv, pool.tick_current_index, pp.tick_lower_index, pp.tick_upper_index));
+                }
+                for (k, (u, v, e)) in [(du.0, dv.0, ea_i), (du.1, dv.1, eb_i)].into_iter().enumerate() {
+                    let tok = if k == 0 { "A" } else { "B" };
+                    if (dec && u > v) || (!dec && u < v) {
+                        fail(acc, "owner_side_on_transfer_fee_pool", format!("token {tok}: owner moved {u}, vault moved {v} ({})", if dec { "withdraw" } else { "deposit" }));
+                    }
+                    if e == 0 && (u != 0 || v != 0) {
+                        fail(acc, "uninvolved_token_moved", format!("token {tok} is not involved (exact amount 0; tick {} range [{}, {})) but the owner moved {u} and the vault {v}", pool.tick_current_index, pp.tick_lower_index, pp.tick_upper_index));
+                    }
+                }
+            }
+            acc.situation(format!("{n}:fee_pool:{}", if dec { "withdraw" } else { "deposit" }));
+            return;
+        }
         if ua != ub && (du != (ea_i, eb_i) || dv != (ea_i, eb_i)) {
             fail(acc, "amounts", format!("liquidity {l} ({}): user moved {:?}, vault moved {:?}, exact amounts ({ea}, {eb}); tick {} price {} range [{}, {})", if dec { "withdraw" } else { "deposit" }, du, dv, pool.tick_current_index, pool.sqrt_price, pp.tick_lower_index, pp.tick_upper_index));
         }
@@ -404,7 +424,7 @@ pub fn run(tier: Tier, seed: u64) -> i32 {
     let acc2 = run_histories(
         seed ^ 0x88,
         per_shard,
-        move |_r| HistCfg { ops: 120, lifecycle_ext: true, allow_adaptive: true, w_swap: 30, w_liq: 50, w_fees: 5, w_lifecycle: 10, w_clock: 2, w_setters: 1, ..Default::default() },
+        move |r| HistCfg { ops: 120, lifecycle_ext: true, allow_adaptive: true, spl_only: r.gen_range(0..3) > 0, allow_transfer_fee: true, w_swap: 30, w_liq: 50, w_fees: 5, w_lifecycle: 10, w_clock: 2, w_setters: 1, ..Default::default() },
         || vec![Box::new(C08m) as Box<dyn Monitor>],
     );
     acc.merge(acc2);
